@@ -48,10 +48,12 @@ type xLine struct {
 }
 
 type xStep struct {
-	outputs []xOutput
-	timeout time.Duration
-	lines   []xLine
-	fault   string
+	outputs   []xOutput
+	timeout   time.Duration
+	lines     []xLine
+	fault     string
+	exits     bool // the child exits after writing exitAfter lines of this step
+	exitAfter int
 }
 
 func xGuardSrc(kind string) *core.ActionSource {
@@ -136,7 +138,7 @@ func runC19(c *sim.Ctx, t *testing.T) {
 			}
 		}
 		// faults
-		st.fault = []string{"none", "none", "dup", "drop", "dup+drop", "reorder", "late", "noise", "forbidden", "guard-reject", "reject-all"}[c.Intn(11, "fault")]
+		st.fault = []string{"none", "none", "dup", "drop", "dup+drop", "reorder", "late", "noise", "forbidden", "guard-reject", "reject-all", "forbidden-in-required", "exit-early"}[c.Intn(13, "fault")]
 		req := len(st.lines)
 		switch st.fault {
 		case "dup":
@@ -183,6 +185,28 @@ func runC19(c *sim.Ctx, t *testing.T) {
 			bad := xLine{text: fmt.Sprintf(`{"bad":"s%d"}`, i), delay: 5 * time.Millisecond, why: "forbidden"}
 			k := c.Intn(len(st.lines), "forbiddenpos") // before the last required line
 			st.lines = append(st.lines[:k], append([]xLine{bad}, st.lines[k:]...)...)
+		case "forbidden-in-required":
+			// the message that completes the step also matches the forbidden pattern (listed after the expected ones)
+			hasInv := false
+			for _, o := range st.outputs {
+				if o.inverted {
+					hasInv = true
+				}
+			}
+			if !hasInv {
+				st.outputs = append(st.outputs, xOutput{key: fmt.Sprintf("s%d", i), inverted: true})
+			}
+			last := &st.lines[len(st.lines)-1]
+			var m map[string]interface{}
+			json.Unmarshal([]byte(last.text), &m)
+			m["bad"] = fmt.Sprintf("s%d", i)
+			b, _ := json.Marshal(m)
+			last.text = string(b)
+			last.why += " (also forbidden)"
+		case "exit-early":
+			// the child process ends (its stdout reaches EOF) with expected output outstanding
+			st.exitAfter = c.Intn(req, "exitafter")
+			st.exits = true
 		case "guard-reject":
 			// one output's only line carries a value its guard rejects
 			found := false
@@ -258,6 +282,10 @@ func runC19(c *sim.Ctx, t *testing.T) {
 						continue
 					}
 					for pos, ln := range steps[i].lines {
+						if steps[i].exits && pos >= steps[i].exitAfter {
+							lg.Add(sim.Ev{Kind: "child-exit", N: int64(i)})
+							return
+						}
 						sim.Sleep(ln.delay)
 						lg.Add(sim.Ev{Kind: "line", N: int64(i), Id: fmt.Sprint(pos), Val: ln.text})
 						if _, err := io.WriteString(stdout, ln.text+"\n"); err != nil {
@@ -373,7 +401,7 @@ func runC19(c *sim.Ctx, t *testing.T) {
 				if ln.step != i || json.Unmarshal([]byte(ln.text), &m) != nil {
 					continue
 				}
-				if xMatchesPattern(o, m) && ln.pos < lastNeeded && why == "" {
+				if xMatchesPattern(o, m) && ln.pos <= lastNeeded && why == "" {
 					why = fmt.Sprintf("step %d: the forbidden pattern bad=%s was matched by a line read before the step could complete", i, o.key)
 					faultOf = st.fault
 				}
